@@ -498,6 +498,11 @@ func migTouchAlphabet(ver string) []SBlock {
 		{Version: ver, Storage: st("1", map[string]string{"7": "0"})},                                                  // system contract emptied (purge)
 		{Version: ver, Deployed: map[string]string{"777": "c1a55"}, Nonces: map[string]string{"777": "1", "abc": "4"}}, // a native deploy next to a nonce-only touch
 		{Version: ver, Declared: map[string]string{"c1a58": "ca5a8"}, Nonces: map[string]string{"abc": "5"}},
+		// (round 6) the class trie of the upgraded database: CASM-hash migration of a class declared BEFORE the upgrade,
+		// next to a nonce-only touch; class-only touch of the contract without storage; a definition registered
+		// without declaration (ExtraDefs) for a class the next block may declare
+		{Version: ver, Migrated: map[string]string{"c1a55": "ca5b1"}, Nonces: map[string]string{"abc": "6"}},
+		{Version: ver, Replaced: map[string]string{"def": "c1a56"}, ExtraDefs: []string{"c1a58"}},
 	}
 }
 
